@@ -1635,6 +1635,13 @@ class Walker:
                     return [("raise", type(exc).__name__, s)]
                 except Exception:
                     pass
+            if isinstance(node.func, ast.Attribute) and node.func.attr == "format" and len(recv) == 1 and recv[0].kind == "const" \
+                    and isinstance(recv[0].value, str) and all(a.kind == "const" for a in args) and all(v.kind == "const" for v in kws.values()) \
+                    and all(isinstance(a.value, (str, int, float, bool, type(None), bytes)) for a in list(args) + list(kws.values())):
+                try:
+                    return [("val", Const(recv[0].value.format(*[a.value for a in args], **{k: v.value for k, v in kws.items()})), s)]
+                except Exception:
+                    pass
             if isinstance(node.func, ast.Attribute) and node.func.attr == "join" and len(recv) == 1 and recv[0].kind == "const" \
                     and isinstance(recv[0].value, (str, bytes)) and len(args) == 1 and args[0].kind == "const" and not kws \
                     and isinstance(args[0].value, (list, tuple)) and all(isinstance(x, type(recv[0].value)) for x in args[0].value):
